@@ -105,22 +105,28 @@ def _test_cases(t, depth=4):
 
 
 def _replace(root, old, new):
-    """Copy of `root` with the node `old` (by identity) replaced by a copy of `new`."""
-    if root is old:
-        return copy.deepcopy(new)
-
+    """`root` with the node `old` (by identity) replaced by `new` (unchanged parts are shared)."""
     def rec(n):
         if n is old:
-            return copy.deepcopy(new)
-        if isinstance(n, ast.AST):
-            m = copy.copy(n)
-            for f, v in ast.iter_fields(n):
-                if isinstance(v, list):
-                    setattr(m, f, [rec(x) for x in v])
-                elif isinstance(v, ast.AST):
-                    setattr(m, f, rec(v))
-            return m
-        return n
+            return new
+        if not isinstance(n, ast.AST):
+            return n
+        ch = {}
+        for f, v in ast.iter_fields(n):
+            if isinstance(v, list):
+                nv = [rec(x) for x in v]
+                if any(a is not b for a, b in zip(nv, v)):
+                    ch[f] = nv
+            elif isinstance(v, ast.AST):
+                nv = rec(v)
+                if nv is not v:
+                    ch[f] = nv
+        if not ch:
+            return n
+        m = copy.copy(n)
+        for f, v in ch.items():
+            setattr(m, f, v)
+        return m
 
     return rec(root)
 
@@ -176,7 +182,10 @@ class _Path:
 
 
 def _subst(e, env):
-    """Copy of `e` with every local / self.<field> replaced by what it holds on this path."""
+    """`e` with every local / self.<field> replaced by what it holds on this path (unchanged parts are shared, nothing
+    is modified in place)."""
+    if not any(v is not None for v in env.values()):
+        return e
     bound = set()
     for x in ast.walk(e):
         if isinstance(x, ast.comprehension):
@@ -184,20 +193,33 @@ def _subst(e, env):
         if isinstance(x, ast.Lambda):
             bound |= {a.arg for a in x.args.args + x.args.kwonlyargs + x.args.posonlyargs}
 
-    class T(ast.NodeTransformer):
-        def visit_Name(self, n):
+    def rec(n):
+        if isinstance(n, ast.Name):
             if isinstance(n.ctx, ast.Load) and n.id not in bound and env.get(n.id) is not None:
-                return copy.deepcopy(env[n.id])
+                return env[n.id]
             return n
+        if isinstance(n, ast.Attribute) and isinstance(n.ctx, ast.Load):
+            d = A.dotted(n)
+            if d and env.get(d) is not None:
+                return env[d]
+        new = {}
+        for f, v in ast.iter_fields(n):
+            if isinstance(v, list):
+                nv = [rec(x) if isinstance(x, ast.AST) else x for x in v]
+                if any(a is not b for a, b in zip(nv, v)):
+                    new[f] = nv
+            elif isinstance(v, ast.AST):
+                nv = rec(v)
+                if nv is not v:
+                    new[f] = nv
+        if not new:
+            return n
+        m = copy.copy(n)
+        for f, v in new.items():
+            setattr(m, f, v)
+        return m
 
-        def visit_Attribute(self, n):
-            if isinstance(n.ctx, ast.Load):
-                d = A.dotted(n)
-                if d and env.get(d) is not None:
-                    return copy.deepcopy(env[d])
-            return self.generic_visit(n)
-
-    return T().visit(copy.deepcopy(e))
+    return rec(e)
 
 
 def _kill(env, name):
@@ -430,6 +452,18 @@ def _config_reads(ck, cls, membership=False):
                 return all(r) and (True in r)
             return False
 
+        def key_consts(k, at):
+            """the constant key(s) an expression denotes: a string constant, or the variable of a loop over a literal
+            tuple / list of string constants"""
+            if A.const_str(k) is not None:
+                return [A.const_str(k)]
+            if isinstance(k, ast.Name):
+                ds = fa.df.reaching(at, k.id)
+                if len(ds) == 1 and ds[0].kind == "for" and isinstance(ds[0].stmt, ast.For) and isinstance(ds[0].stmt.target, ast.Name) \
+                        and isinstance(ds[0].value, (ast.Tuple, ast.List)) and ds[0].value.elts and all(A.const_str(x) is not None for x in ds[0].value.elts):
+                    return [A.const_str(x) for x in ds[0].value.elts]
+            return []
+
         for n in A.walk_body(fi.node):
             if not isinstance(n, (ast.Call, ast.Subscript, ast.Compare)):
                 continue
@@ -437,13 +471,13 @@ def _config_reads(ck, cls, membership=False):
             if not ids:
                 continue
             at = ids[0]
-            if isinstance(n, ast.Call) and A.call_attr(n) == "get" and n.args and A.const_str(n.args[0]) and is_cfg(A.call_recv(n), at) is True:
-                keys.add(A.const_str(n.args[0]))
-            elif isinstance(n, ast.Subscript) and isinstance(n.ctx, ast.Load) and A.const_str(n.slice) and is_cfg(n.value, at) is True:
-                keys.add(A.const_str(n.slice))
+            if isinstance(n, ast.Call) and A.call_attr(n) == "get" and n.args and key_consts(n.args[0], at) and is_cfg(A.call_recv(n), at) is True:
+                keys.update(key_consts(n.args[0], at))
+            elif isinstance(n, ast.Subscript) and isinstance(n.ctx, ast.Load) and key_consts(n.slice, at) and is_cfg(n.value, at) is True:
+                keys.update(key_consts(n.slice, at))
             elif isinstance(n, ast.Compare) and membership and len(n.ops) == 1 and isinstance(n.ops[0], (ast.In, ast.NotIn)) \
-                    and A.const_str(n.left) and is_cfg(n.comparators[0], at) is True:
-                keys.add(A.const_str(n.left))
+                    and key_consts(n.left, at) and is_cfg(n.comparators[0], at) is True:
+                keys.update(key_consts(n.left, at))
             if isinstance(n, ast.Call):
                 callee = _class_method(ck, fi, n)
                 bound = _bind(callee, n) if callee is not None else None
@@ -471,6 +505,33 @@ def _dump_entries(fa: FA):
     entry is written on every call."""
     entries = []
     names = {r.value.id for r in fa.returns() if isinstance(r.value, ast.Name)}
+
+    def bases(e):
+        """names of dictionaries an expression copies its entries from: {**x}, dict(x, ...), x.copy(), x | y"""
+        if isinstance(e, ast.Name):
+            return {e.id}
+        if isinstance(e, ast.Dict):
+            return {v.id for k, v in zip(e.keys, e.values) if k is None and isinstance(v, ast.Name)}
+        if isinstance(e, ast.Call) and isinstance(e.func, ast.Name) and e.func.id == "dict":
+            return {a_.id for a_ in e.args if isinstance(a_, ast.Name)} | {k.value.id for k in e.keywords if k.arg is None and isinstance(k.value, ast.Name)}
+        if isinstance(e, ast.Call) and A.call_attr(e) == "copy" and isinstance(A.call_recv(e), ast.Name) and not e.args:
+            return {A.call_recv(e).id}
+        if isinstance(e, ast.BinOp) and isinstance(e.op, ast.BitOr):
+            return bases(e.left) | bases(e.right)
+        return set()
+
+    for r in fa.returns():
+        if r.value is not None:
+            names |= bases(r.value)
+    grew = True
+    while grew:
+        grew = False
+        for st in fa.stmts(ast.Assign):
+            if any(isinstance(t, ast.Name) and t.id in names for t in st.targets):
+                new = bases(st.value) - names
+                if new:
+                    names |= new
+                    grew = True
 
     def cond(st):
         c = fa.conditions(st)
@@ -541,7 +602,9 @@ def check_base_dir_final_before_use(ck, R):
     handed to _load_config(...) inside the constructor is the value self.base_dir finally holds."""
     for q in ("configuration.ConfigurationRepository.__init__", "configuration.Environment.__init__"):
         fa = FA(ck, q)
-        loads = [c for c in fa.calls("_load_config") if c.args]
+        lcf = ck.repo.try_func("configuration._load_config")
+        first = lcf.params[0] if lcf is not None and lcf.params else "base_dir"
+        loads = [c for c in fa.calls("_load_config") if A.arg_or_kw(c, 0, first) is not None]
         stores = [s for s in fa.stmts(ast.Assign) if any(A.dotted(t) == "self.base_dir" for t in s.targets)]
         ck.need(loads and stores, "%s: _load_config(<base dir>, ...) / self.base_dir assignment not found" % q)
         finals = _sym_paths(fa)
@@ -554,7 +617,7 @@ def check_base_dir_final_before_use(ck, R):
             for u in uses:
                 if u.end != "stop":
                     continue
-                for (ul, uv) in _value_cases(ck, fa, u.lits, _subst(c.args[0], u.env), u.env):
+                for (ul, uv) in _value_cases(ck, fa, u.lits, _subst(A.arg_or_kw(c, 0, first), u.env), u.env):
                     for (fl, fv) in fin:
                         if not _consistent(ul, fl):
                             continue
@@ -590,6 +653,15 @@ def check_config_not_mutated(ck, R):
                     continue
                 fa = FA(ck, m)
                 n += 1
+                # a local that IS the caller's object (`cfg = config`, `cfg = {} if config is None else config`)
+                grew = True
+                while grew:
+                    grew = False
+                    for st in fa.stmts(ast.Assign):
+                        if len(st.targets) == 1 and isinstance(st.targets[0], ast.Name) and st.targets[0].id not in params \
+                                and any(isinstance(b, ast.Name) and b.id in params for b in _branches(st.value)):
+                            params.append(st.targets[0].id)
+                            grew = True
                 muts = param_mutations(fa, params)
                 ck.ob(R, fa.key(None, "config-not-mutated"), not muts,
                       "%s does not modify the configuration object it is given" % m.qual if not muts else
@@ -730,7 +802,7 @@ def _create_rule(ck, R3):
                     looked_up = guarded = True  # an unknown type raises by itself
                 elif isinstance(f, ast.Call) and A.call_attr(f) == "get" and A.norm(A.call_recv(f)) == reg and len(f.args) == 1 and A.norm(f.args[0]) == tp:
                     looked_up = True
-                    guarded = ("%s in %s" % (tp, reg), True) in l
+                    guarded = ("%s in %s" % (tp, reg), True) in l or ("%s is None" % A.norm(f), False) in l
                 if not looked_up:
                     why = "`%s` is not the class registered under the requested type" % A.short(f, 60)
                 elif not guarded:
@@ -749,13 +821,30 @@ def _first_match(ck, R4):
     cfg = gc.cfg
     heads = [n for n in cfg.nodes if n.kind == "for" and n.id in cfg.reachable_nodes()]
     over_repos = [n for n in heads if any(A.dotted(x) == "self.repos" for x in ast.walk(n.ast.iter))]
+    why = None
+    where = gc.where()
+    lazy_ok = set()  # texts of `next((r.clusters[name] for r in self.repos if name in r.clusters), None)`: first match by construction
     if not over_repos:
         comp = [x for x in A.walk_body(gc.node) if isinstance(x, (ast.ListComp, ast.GeneratorExp, ast.SetComp, ast.DictComp))
                 and any(A.dotted(y) == "self.repos" for y in ast.walk(x))]
-        ck.need(not comp, "get_cluster: the search over self.repos is a comprehension, which this rule cannot decide")
-    why = None
-    where = gc.where()
-    if len(over_repos) != 1:
+        for x in comp:
+            call = gc.pm.get(x)
+            g = x.generators[0]
+            lv = A.norm(g.target)
+            shape = isinstance(x, ast.GeneratorExp) and isinstance(call, ast.Call) and A.call_dotted(call) == "next" and len(call.args) == 2 \
+                and call.args[0] is x and not call.keywords and len(x.generators) == 1
+            ck.need(shape, "get_cluster: the search over self.repos is a comprehension of a shape this rule cannot decide")
+            if not A.is_none(call.args[1]):
+                why = "without a hit the function returns `%s`, not None" % A.short(call.args[1], 40)
+            elif A.norm(g.iter) != "self.repos":
+                why = "the repositories are searched as `%s`, not in self.repos order" % A.norm(g.iter)
+            elif not (A.norm(x.elt) == "%s.clusters[%s]" % (lv, nm) and [A.norm(c) for c in g.ifs] == ["%s in %s.clusters" % (nm, lv)]):
+                why = "`%s` does not yield the cluster of the first repository defining the name" % A.short(x, 60)
+            else:
+                lazy_ok.add(A.norm(call))
+    if lazy_ok or (why and not over_repos):
+        pass
+    elif len(over_repos) != 1:
         why = "%d loops over self.repos" % len(over_repos)
     else:
         head = over_repos[0]
@@ -837,6 +926,8 @@ def _first_match(ck, R4):
         if why or "searched" in p.obs:
             continue
         for (l, v) in _value_cases(ck, gc, p.lits, p.value, p.env):
+            if A.norm(v) in lazy_ok and ("%s is None" % nm, False) in l:
+                continue
             if not (("%s is None" % nm, True) in l and A.norm(v) == "self.default_cluster"):
                 why = "`%s` is returned without searching the repositories" % A.short(v, 50)
                 if p.end == "return":
